@@ -285,8 +285,15 @@ impl<'a> Gen<'a> {
 
     pub fn alt_cmd(&mut self) -> String {
         let csi = self.csi();
-        let m = *self.r.pick(&["47", "1047", "1049"]);
         let hl = if self.r.chance(1, 2) { 'h' } else { 'l' };
+        if self.r.chance(1, 5) {
+            // several modes in one sequence: they take effect in the order written
+            let pool = ["47", "1047", "1049", "1048", "1048", "6", "7", "25", "1"];
+            let n = self.r.range(2, 3);
+            let ms: Vec<&str> = (0..n).map(|_| *self.r.pick(&pool)).collect();
+            return format!("{}?{}{}", csi, ms.join(";"), hl);
+        }
+        let m = *self.r.pick(&["47", "1047", "1049"]);
         format!("{}?{}{}", csi, m, hl)
     }
 
